@@ -28,7 +28,7 @@ func (d Dict) render(f *File, w io.Writer, s *Statement) error {
 	lookup := map[string]kv{}
 	keys := []string{}
 	for k, v := range d {
-		if k.isNull(f) || v.isNull(f) {
+		if k == nil || v == nil || k.isNull(f) || v.isNull(f) {
 			continue
 		}
 		buf := &bytes.Buffer{}
@@ -71,7 +71,7 @@ func (d Dict) isNull(f *File) bool {
 		return true
 	}
 	for k, v := range d {
-		if !k.isNull(f) && !v.isNull(f) {
+		if k != nil && v != nil && !k.isNull(f) && !v.isNull(f) {
 			// if any of the key/value pairs are both not null, the Dict is not
 			// null
 			return false
